@@ -26,4 +26,14 @@ m = {"version": 1, "setup_cmd": "./setup.sh", "hooks": meta["hooks"], "engines":
 for e in m["engines"]:
     e["serves_properties"] = sorted(claimed)
 json.dump(m, open(os.path.join(HERE, "MANIFEST.json"), "w"), indent=1)
+# known_findings.json = concatenation of the committed fragments (never written at run time)
+findings, fixed = [], []
+for p in sorted(glob.glob(os.path.join(HERE, "known_findings.d", "*.json"))):
+    d = json.load(open(p))
+    if isinstance(d, list):
+        findings += d
+    else:
+        findings += d.get("findings", [])
+        fixed += d.get("fixed", [])
+json.dump({"findings": findings, "fixed": fixed}, open(os.path.join(HERE, "known_findings.json"), "w"), indent=1)
 print("MANIFEST.json: %d checks, %d not_applicable" % (len(checks), len(na)))
